@@ -107,6 +107,11 @@ def rule_kaufman_col(F, ev, R, config, rule="R-KAUFMAN-COL"):
             continue
         N = nfmod.NF()
         n = N.nf(Mx)
+        # the matrix handed to the flattening may itself be a reshaped matrix: vec(reshape(M)) = vec(M) (column-major
+        # re-interpretation of one buffer), so a vec factor common to all monomials is the sink's own flattening
+        V_ = (("vec",), False)
+        if n and all(f and f[0] == V_ for (s_, f) in n):
+            n = {(s_, f[1:]): c for (s_, f), c in n.items()}
         me = ("param", b.key, 1)
         U = ("payload", ("field", ("field", ("payload", ("field", me, roles["cache"]), "ok", "0"), cuse["svd"]), "u"), "ok", "0")
         W = ("W", ("field", me, roles["weights"]))
@@ -261,9 +266,14 @@ def rule_data_weight_once(F, ev, R, config, rule="R-DATA-WEIGHT-ONCE"):
         fv = struct_view(F, v, ADT_PBUILDER)
         if fv is not None:
             e = fv.get(br["eps"])
-            ok = (e is not None and e[0] == "opt" and e[1][0] == "call" and e[1][1].rsplit("::", 1)[-1] in ("abs", "modulus", "norm1")
+            # Some(|eps|) for EVERY supplied value: a present value under a condition (`.filter(..)`, `then_some`) drops thresholds
+            ok = (e is not None and e[0] == "opt" and not e[2] and e[1][0] == "call" and e[1][1].rsplit("::", 1)[-1] in ("abs", "modulus", "norm1")
                   and e[1][3] == (("param", sb.key, 2),))
-        R.add(rule, config, sb.key, "epsilon-stores-abs", ok, "" if ok else "epsilon() stores `%s`, expected Some(|eps|)" % short(v)[:200], sb.j["span"])
+            why_e = ("epsilon() stores the threshold only under `%s`: other supplied values are silently replaced by the default" % short(sorted(e[2], key=repr)[0])[:120]) \
+                if (e is not None and e[0] == "opt" and e[2]) else "epsilon() stores `%s`, expected Some(|eps|)" % short(e if e is not None else v)[:200]
+        else:
+            why_e = "epsilon() returns `%s` (undetermined)" % short(v)[:120]
+        R.add(rule, config, sb.key, "epsilon-stores-abs", ok, "" if ok else why_e, sb.j["span"])
     R.floor(rule, config, 6, "five build() clauses + epsilon()")
 
 
@@ -1090,13 +1100,44 @@ def rule_par_pure(F, ev, R, config, rule="R-PAR-PURE", metadata=None):
                     continue
                 n += 1
                 ok = fn["name"] in RAYON_OK
-                R.add(rule, config, b.key, "rayon:" + fn["name"], ok,
-                      "" if ok else "rayon combinator `%s` (a reduction/fold/for_each makes the result depend on the schedule)" % fn["name"], t.get("span"))
-                if fn["name"] in ("map", "try_for_each"):
+                why_not = "rayon combinator `%s` (a reduction/fold/for_each makes the result depend on the schedule)" % fn["name"]
+                if fn["name"] == "map_init":
+                    # per-worker scratch state: how many items share one state depends on the schedule, so the state a call
+                    # FINDS must not reach anything the call produces — every read of it comes after it was overwritten
+                    import effects as fx
+                    v0 = ev.call_val(Env(b), bi)
+                    opc = v0[3][2] if v0[0] == "call" and len(v0[3]) == 3 and v0[3][2][0] == "closure" else None
+                    INIT = ("sym", "init")
+                    leak = None
+                    seen_any = False
+                    if opc is not None:
+                        for e in list(fx.iteration_effects(ev, Env(rootb))):   # all of them first: summaries are recorded while later effects are evaluated
+                            if not (e.body.key == opc[1] or e.body.key.startswith(opc[1] + "::") or any(pk == opc[1] for pk, _ in e.env.path)):
+                                continue
+                            seen_any = True
+                            ob = ev.kernel_obligations.get((e.body.key, e.block, e.env.path)) if e.kind == "call" else None
+                            for a_ in (e.raw or []):
+                                if a_ == INIT and ob is not None and not contains(ob[2], lambda y: y == INIT):
+                                    continue   # handed over as the buffer of an overwriting kernel: written, not read
+                                if contains(a_, lambda y: y == INIT):
+                                    leak = "%s(%s)" % (e.name if e.kind == "call" else "store", short(a_)[:80])
+                                    break
+                            if leak:
+                                break
+                        if leak is None and seen_any:
+                            cenv_ = ev.inline_env(F.bodies[opc[1]], {1: opc, 2: INIT, 3: ("sym", "item")}, 1)
+                            rv_ = ev.ret_val(cenv_)
+                            if contains(rv_, lambda y: y == INIT):
+                                leak = "returned value"
+                    ok = opc is not None and seen_any and leak is None
+                    why_not = ("rayon `map_init`: the per-worker state as found by a call reaches `%s` — the result depends on how rayon "
+                               "splits the items over workers" % leak) if leak else "rayon `map_init` whose closure cannot be analysed (undetermined)"
+                R.add(rule, config, b.key, "rayon:" + fn["name"], ok, "" if ok else why_not, t.get("span"))
+                if fn["name"] in ("map", "try_for_each", "map_init"):
                     # the closure
                     env = Env(b)
                     v = ev.call_val(env, bi)
-                    c = v[3][1] if v[0] == "call" else None
+                    c = v[3][-1] if v[0] == "call" else None
                     if fn["name"] == "try_for_each":
                         ty = b.local_ty(t["dest"]["l"]) or ""
                         okp = ty.startswith("std::result::Result<()") or ty.startswith("std::option::Option<()")
@@ -1753,3 +1794,66 @@ def rule_no_shadow(F, ev, R, config, rule="R-NO-SHADOW", adts=None):
               "direct calls and calls through the trait now disagree" % (b.name, twins[0].j["impl"]["trait"].split("<")[0], b.name), b.j["span"])
     R.add(rule, config, "-", "inherent-methods-scanned", n > 0, "" if n else "no public inherent methods of the state types found (anchor)")
     R.floor(rule, config, 1, "scan of the state types' public inherent methods")
+
+
+def _adt_args(ty, adt):
+    """generic argument lists of every mention of `adt<…>` in a type string"""
+    from mir import _split_top
+    out = []
+    i = 0
+    while True:
+        i = ty.find(adt + "<", i)
+        if i < 0:
+            return out
+        j = i + len(adt) + 1
+        depth, k = 1, j
+        while k < len(ty) and depth:
+            depth += ty[k] in "<([" 
+            depth -= ty[k] in ">)]"
+            k += 1
+        out.append(_split_top(ty[j:k - 1]))
+        i = k
+
+
+def rule_flavour_flags(F, ev, R, config, rule="R-FLAVOUR-FLAGS"):
+    """the two const flags of the problem type (right-hand-side flavour, execution flavour) keep their slots: wherever a
+    function takes a problem and hands out a problem (the conversions between the sequential and the parallel flavour, the
+    builder's `build`, `Clone`), a generic parameter that occurs in both types occurs at the same position — a type alias
+    or signature with the two `bool`s swapped type-checks (a struct literal moving the fields fits any flags) but relabels
+    a multi-column problem as a single-column one"""
+    n = 0
+    for b in sorted(F.bodies.values(), key=lambda x: x.key):
+        if b.kind == "Closure":
+            continue
+        outs = _adt_args(b.j.get("output") or "", ADT_PROBLEM)
+        ins = []
+        for t in (b.j.get("inputs") or []):
+            ins.extend(_adt_args(t, ADT_PROBLEM))
+        if not outs or not ins:
+            continue
+        gen = set()
+        for g in (b.j.get("generics") or []):
+            gen.add(g if isinstance(g, str) else (g[0] if isinstance(g, (list, tuple)) and g else (g.get("name") if isinstance(g, dict) else None)))
+        for o in outs:
+            for a in ins:
+                if len(o) != len(a):
+                    continue
+                n += 1
+                bad = [(x, a.index(x), o.index(x)) for x in o if x in a and a.index(x) != o.index(x) and (not gen or x in gen or x.isidentifier())]
+                R.add(rule, config, b.key, "flags-keep-their-slots", not bad,
+                      "" if not bad else "`%s` moves from slot %d of the argument's `%s<%s>` to slot %d of the result's `<%s>`: the right-hand-side flavour and the execution "
+                      "flavour are exchanged" % (bad[0][0], bad[0][1] + 1, ADT_PROBLEM.rsplit("::", 1)[-1], ", ".join(a), bad[0][2] + 1, ", ".join(o)), b.j["span"])
+    # the fit result carries the problem in the flavour it was given: field type = what `into_sequential` hands out
+    fr = [x for x in struct_fields(F, ADT_FITRESULT) if x.get("adt") == ADT_PROBLEM]
+    conv = [b for b in F.bodies.values() if b.kind != "Closure" and b.j.get("impl", {}).get("self_adt") == ADT_PROBLEM and not b.j.get("impl", {}).get("trait")
+            and _adt_args(b.j.get("output") or "", ADT_PROBLEM) and len(b.j.get("inputs") or []) == 1 and _adt_args((b.j.get("inputs") or [""])[0], ADT_PROBLEM)]
+    for x in fr:
+        fa = _adt_args(x["ty"], ADT_PROBLEM)
+        for b in conv:
+            ia = _adt_args(b.j["inputs"][0], ADT_PROBLEM)[0]
+            if fa and len(fa[0]) == len(ia):
+                n += 1
+                bad = [(y, ia.index(y), fa[0].index(y)) for y in fa[0] if y in ia and ia.index(y) != fa[0].index(y)]
+                R.add(rule, config, b.key, "result-field-keeps-slots:" + x["name"], not bad,
+                      "" if not bad else "the fit result stores `<%s>` where the problem type is `<%s>`: `%s` changes its slot" % (", ".join(fa[0]), ", ".join(ia), bad[0][0]), b.j["span"])
+    R.floor(rule, config, 3, "into_sequential, into_parallel, build/clone signatures")
